@@ -323,6 +323,7 @@ class StampTranslator:
         'self.Y.sympy': 'pY', 'self.Z.sympy': 'pZ', 'self.Isc.sympy': 'pIsc', 'self.Voc.sympy': 'pVoc',
         'self.cpt.alpha.sympy': 'pAlpha', 'eps': 'pEps', 'self.cpt.K.sympy': 'pK',
         'mna.cct.elements[self.Lname1].Z.sympy': 'pZL1', 'mna.cct.elements[self.Lname2].Z.sympy': 'pZL2',
+        'mna.cct.elements[self.Lname1].cpt.i0.sympy': 'pI01', 'mna.cct.elements[self.Lname2].cpt.i0.sympy': 'pI02',
     }
     for _a in ('A11', 'A12', 'A21', 'A22', 'Y11', 'Y12', 'Y21', 'Y22'):
         PARAMS['self.cpt.%s.sympy' % _a] = 'p' + _a
@@ -332,7 +333,7 @@ class StampTranslator:
             if isinstance(n, ast.Call) and self.canon(n.func, env) in ('sym.sqrt', 'sqrt'):
                 k = self.opaque
                 self.opaque += 1
-                if k > 1:
+                if k > 2:
                     fail(e, 'too many opaque expressions')
                 return P('pZM%d' % k)
         return self.scalar1(e, env)
